@@ -86,6 +86,9 @@ def free_metadata(draw, maxkeys=2):
     for _ in range(draw(st.integers(0, maxkeys))):
         k = draw(st.sampled_from(FREE_KEYS))
         d[k] = copy.deepcopy(draw(st.one_of(json_val(2), st.sampled_from(SHAPES))))
+    if draw(st.sampled_from(range(14))) == 0:
+        # the committed result of an earlier conflicted merge carries nbdime's own record
+        d["nbdime-conflicts"] = {"local_diff": [{"op": "add", "key": "x", "value": 1}], "remote_diff": [{"op": "add", "key": "x", "value": 2}]}
     return d
 
 
@@ -543,6 +546,40 @@ def edit_notebook(draw, nb, tag, max_steps=4, ops=None, min_steps=0, cell_kinds=
     return nb
 
 
+def _numeric_leaves(x, path=()):
+    if isinstance(x, dict):
+        for k, v in x.items():
+            yield from _numeric_leaves(v, path + (k,))
+    elif isinstance(x, list):
+        for i, v in enumerate(x):
+            yield from _numeric_leaves(v, path + (i,))
+    elif type(x) in (bool, int, float) and x in (0, 1, 2):
+        yield path
+
+
+@st.composite
+def type_only_edit(draw, nb):
+    """A copy of nb that differs ONLY in the JSON type of 1-2 values (1 -> 1.0 / true ...) inside metadata or JSON outputs."""
+    nb = copy.deepcopy(nb)
+    if not nb["metadata"].get("vp_n") and not list(_numeric_leaves(nb["metadata"])):
+        nb["metadata"]["vp_n"] = draw(st.sampled_from([0, 1, 2]))
+    spots = [("metadata",) + p for p in _numeric_leaves(nb["metadata"])]
+    for ci, c in enumerate(nb["cells"]):
+        spots += [("cells", ci, "metadata") + p for p in _numeric_leaves({k: v for k, v in c["metadata"].items()
+                                                                          if k not in ("collapsed", "scrolled", "jupyter")})]
+        for oi, o in enumerate(c.get("outputs", [])):
+            if "metadata" in o:
+                spots += [("cells", ci, "outputs", oi, "metadata") + p for p in _numeric_leaves(o["metadata"])]
+    swaps = {0: [0.0, False], 1: [1.0, True], 2: [2.0]}
+    for path in draw(st.lists(st.sampled_from(spots), min_size=1, max_size=2, unique=True)):
+        t = nb
+        for p in path[:-1]:
+            t = t[p]
+        v = t[path[-1]]
+        t[path[-1]] = draw(st.sampled_from([c for c in swaps[v] if type(c) is not type(v)] or swaps[v]))
+    return nb
+
+
 _ONE_IN_TEN = [True] + [False] * 9
 
 
@@ -566,7 +603,7 @@ def _forced_conflict(draw, base):
     shape = draw(st.sampled_from(["del_vs_edit", "edit_vs_del", "both_edit_source", "both_edit_outputs", "both_edit_meta",
                                   "both_insert_same_pos", "both_insert_similar", "insert_next_to_edit", "insert_next_to_del",
                                   "both_append_nonl", "both_attach", "both_nbmeta", "both_minor", "both_del", "both_ec",
-                                  "both_same_edit", "both_edit_same_output", "both_edit_same_output", "transient_meta", "type_vs_edit", "type_vs_edit", "type_vs_edit", "both_rerun", "both_rerun"]))
+                                  "both_same_edit", "both_edit_same_output", "both_edit_same_output", "transient_meta", "type_vs_edit", "type_vs_edit", "type_vs_edit", "both_rerun", "both_rerun", "two_outputs", "two_outputs", "both_insert_block"]))
     usedl, usedr = _ids(l), _ids(r)
     if n == 0 or shape in ("both_insert_same_pos", "both_insert_similar"):
         i = draw(st.integers(0, n))
@@ -582,10 +619,23 @@ def _forced_conflict(draw, base):
         return l, r, shape
     i = draw(st.integers(0, n - 1))
     code_idx = [k for k, x in enumerate(base["cells"]) if x["cell_type"] == "code"]
-    if code_idx and shape in ("both_edit_outputs", "both_ec", "both_edit_same_output", "transient_meta", "type_vs_edit", "both_rerun"):
+    if code_idx and shape in ("both_edit_outputs", "both_ec", "both_edit_same_output", "transient_meta", "type_vs_edit", "both_rerun", "two_outputs"):
         i = draw(st.sampled_from(code_idx))      # shapes about outputs / execution counts need a code cell
     c = base["cells"][i]
     dve = draw(st.sampled_from([None, None, ["source", "rerun"], ["source", "toggle"], ["rerun"], ["rerun", "toggle"], ["source", "outputs"]]))
+    if shape in ("del_vs_edit", "edit_vs_del") and c["cell_type"] == "code" and draw(st.sampled_from([True, False, False])):
+        # edit-and-rerun against a deletion: source edited AND one line of a multi-line output text changed in place
+        o = {"output_type": "stream", "name": "stdout", "text": "epoch 1 loss 0.5127\nepoch 2 loss 0.4311\nepoch 3 loss 0.3977\n"}
+        for nb_ in (base, l, r):
+            nb_["cells"][i]["outputs"].append(copy.deepcopy(o))
+        keep, gone = (r, l) if shape == "del_vs_edit" else (l, r)
+        kc = keep["cells"][i]
+        kc["source"] = draw(edit_text(kc["source"]))
+        kc["outputs"][-1]["text"] = o["text"].replace("0.4311", draw(st.sampled_from(["0.4977", "0.4000"])))
+        if draw(st.booleans()):
+            kc["execution_count"] = 12
+        del gone["cells"][i]
+        return l, r, shape + "_rerun_output_line"
     if shape == "del_vs_edit":
         del l["cells"][i]
         r["cells"][i] = draw(edit_cell(c, minor, dve))
@@ -632,6 +682,45 @@ def _forced_conflict(draw, base):
                     so.insert(j, draw(output()))
                 elif extra == "del_other" and len(so) > 1:
                     del so[(j + 1) % len(so)]
+    elif shape == "both_insert_block":
+        # both sides insert a block of lines at the same line of the same source; the blocks share (repeated) lines
+        # around a differing middle, e.g. blank line / statement / blank line
+        lines = c["source"].splitlines(True)
+        if lines and not lines[-1].endswith(("\n", "\r")):
+            lines[-1] += "\n"
+        k = draw(st.integers(0, len(lines)))
+        frame = draw(st.sampled_from(["\n", "# ---\n", "pass\n"]))
+        pool = CODE_LINES if c["cell_type"] == "code" else MD_LINES
+        mid_l = [_line(draw, pool) + "\n" for _ in range(draw(st.integers(1, 2)))]
+        mid_r = [_line(draw, pool) + "\n" for _ in range(draw(st.integers(1, 2)))]
+        reps = draw(st.sampled_from([1, 1, 2]))
+        base["cells"][i]["source"] = "".join(lines)
+        l["cells"][i] = copy.deepcopy(base["cells"][i])
+        r["cells"][i] = copy.deepcopy(base["cells"][i])
+        l["cells"][i]["source"] = "".join(lines[:k] + [frame] * reps + mid_l + [frame] * reps + lines[k:])
+        r["cells"][i]["source"] = "".join(lines[:k] + [frame] * reps + mid_r + [frame] * reps + lines[k:])
+    elif shape == "two_outputs":
+        # one output of a cell changed by both sides in a conflicting way, ANOTHER output of the same cell changed by both
+        # sides in different places (local: its metadata, remote: its data) - decisions of one outputs list get bundled
+        if c["cell_type"] != "code":
+            l["cells"][i] = draw(edit_cell(c, minor, ["source"]))
+            r["cells"][i] = draw(edit_cell(c, minor, ["source"]))
+        else:
+            while len(base["cells"][i]["outputs"]) < 2 or not any(o["output_type"] in ("display_data", "execute_result") for o in base["cells"][i]["outputs"]):
+                o = {"output_type": "display_data", "data": {"text/plain": draw(text(3)) or "value\n"}, "metadata": {"a": 1}}
+                for nb_ in (base, l, r):
+                    nb_["cells"][i]["outputs"].append(copy.deepcopy(o))
+            outs = base["cells"][i]["outputs"]
+            rich = [k for k, o in enumerate(outs) if o["output_type"] in ("display_data", "execute_result")]
+            j2 = draw(st.sampled_from(rich))
+            j1 = draw(st.sampled_from([k for k in range(len(outs)) if k != j2]))
+            l["cells"][i]["outputs"][j1] = draw(edit_output(outs[j1]))
+            r["cells"][i]["outputs"][j1] = draw(edit_output(outs[j1]))
+            lo, ro = l["cells"][i]["outputs"][j2], r["cells"][i]["outputs"][j2]
+            lo["metadata"] = dict(lo["metadata"], width=draw(st.sampled_from([100, 200])))
+            k = sorted(ro["data"])[0] if ro["data"] else "text/plain"
+            v = ro["data"].get(k, "")
+            ro["data"][k] = (v + "\nmore") if isinstance(v, str) else draw(edit_json(v))
     elif shape == "both_rerun":
         # the everyday conflict: both sides re-executed the same cell (different execution counts, maybe new outputs)
         if c["cell_type"] == "code" and draw(st.booleans()):
